@@ -14,11 +14,11 @@ CLAIMED = {
 
 CLAIMED.update({
     "C01": ("Coq proof (refinement of the assembly loops to lists of additions + ring semantics, any commutative ring) + extracted-model correspondence (channels A, B) + exact rational oracle",
-            "Theorems in Props/C01.v: for every well-formed index-level network, every species row of the generated right-hand side evaluates (in any commutative ring, for every k and y) to the mass-action sum with multiplicities plus the modifier terms; unreacting species get the literal 0.0; the temperature row is heating minus cooling under the (gamma-1)/kerg/npar wrap. Text level (rhs_text_parses, rhs_text_is_mass_action): the string the generator writes for a species row - '0.0' followed by ' - k[l]*y[IDX_a]*y[IDX_b]' ... - lexed with C's maximal munch and parsed with C precedence is, for EVERY list of terms, the left-nested sum of the products, and its value is the mass-action law. Tied to TemplateLoader._prepare_ode_content (terms, and the exact text of every species row against the model's text) and to the rendered Fex of dense/sparse/cusparse/rosenbrock4 by term-level comparison with the extracted model and by exact evaluation of the emitted text.",
+            "Theorems in Props/C01.v: for every well-formed index-level network, every species row of the generated right-hand side evaluates (in any commutative ring, for every k and y) to the mass-action sum with multiplicities plus the modifier terms; unreacting species get the literal 0.0; the temperature row is heating minus cooling under the (gamma-1)/kerg/npar wrap. Text level (rhs_text_parses, rhs_text_is_mass_action): the string the generator writes for a species row - '0.0' followed by ' - k[l]*y[IDX_a]*y[IDX_b]' ... - lexed with C's maximal munch and parsed with C precedence is, for EVERY list of terms, the left-nested sum of the products, and its value is the mass-action law; rows holding ODE-modifier terms (rhs_text_with_modifiers_is_law): for ALL factor texts that parse on their own as C, the row parses with each factor as its own expression (parser and lexer frame lemmas) and denotes the law plus the modifier sum. Tied to TemplateLoader._prepare_ode_content (terms, and the exact text of every species row against the model's text) and to the rendered Fex of dense/sparse/cusparse/rosenbrock4 by term-level comparison with the extracted model and by exact evaluation of the emitted text.",
             "Index-level model (species already resolved to slots by the implementation's own species.index; identity of species is C08/C09); species rows are compared as exact text with the model (the rendered sources and rows holding a user modifier factor - arbitrary text - after parsing sums of products with the harness canonicaliser); stmwrap line breaking and floating-point evaluation order not modelled.",
             "7 C01"),
     "C02": ("Coq proof (formal derivative by linearity+Leibniz over any commutative ring; Coquelicot is_derive over R) + correspondence + dual-number oracle",
-            "Theorems in Props/C02.v: every Jacobian entry evaluates to the formal partial derivative of the emitted row (reactions, ODE modifiers with any number of repeated dependencies, thermal terms); omitted entries are identically zero derivatives; over R the formal derivative is Coquelicot's is_derive with rates held fixed; text level (jac_text_is_derivative, jac_thermal_text_is_derivative): the string of an entry, read as C, evaluates to that formal derivative; the wrapped entries of the temperature row parse as the wrapping of the derivative of the unwrapped row. Tied to ode.jac.rhs/vals (terms and exact text) and to the four rendered Jacobians by term comparison and by exact dual-number differentiation of the emitted right-hand side.",
+            "Theorems in Props/C02.v: every Jacobian entry evaluates to the formal partial derivative of the emitted row (reactions, ODE modifiers with any number of repeated dependencies, thermal terms); omitted entries are identically zero derivatives; over R the formal derivative is Coquelicot's is_derive with rates held fixed; text level (jac_text_is_derivative, jac_thermal_text_is_derivative): the string of an entry, read as C, evaluates to that formal derivative; the wrapped entries of the temperature row parse as the wrapping of the derivative of the unwrapped row; entries holding modifier terms (jac_text_with_modifiers_is_derivative) for all factor texts that parse as C. Tied to ode.jac.rhs/vals (terms and exact text) and to the four rendered Jacobians by term comparison and by exact dual-number differentiation of the emitted right-hand side.",
             "Derivative with respect to explicit occurrences of y[IDX_j]; gamma, npar, kerg, rate coefficients are parameters. Axioms: the three standard real-number axioms (ClassicalDedekindReals.sig_forall_dec, sig_not_dec, functional_extensionality_dep) only for the is_derive theorems.",
             "7 C02"),
     "C03": ("Coq proof (CSR loop refined to per-row entry lists; layouts proved equal as triple lists) + correspondence + structural oracle on rendered files",
@@ -34,7 +34,7 @@ CLAIMED.update({
             "Temperatures are exact rationals; the C-level zero initialisation is checked textually in every rendered source and by running the compiled Odeint and CVODE-dense right-hand sides at a sequence of temperatures in one process against fresh processes (stand-in headers trusted).",
             "7 C06"),
     "C13": ("Coq proof (list-level characterisation of the overwrite loop; refinement theorem for ODE modifiers) + correspondence + differential oracle incl. the configuration-file path",
-            "Theorems in Props/C13.v: a rate modifier replaces exactly the assignments whose reaction index equals its key (last key wins) and re-indexing happens only for fully unindexed networks; an ODE modifier appends its terms to the target equation only; the --rate-modifier / --ode-modifier texts written for a list of modifiers are parsed back to that list (model of `naunet init`). Tied to the API (also on networks edited after the modifiers were attached), TemplateLoader.render, Network.export -> `naunet render` and `naunet init` -> TOML.",
+            "Theorems in Props/C13.v: a rate modifier replaces exactly the assignments whose reaction index equals its key (last key wins) and re-indexing happens only for fully unindexed networks; an ODE modifier appends its terms to the target equation only; the --rate-modifier / --ode-modifier texts written for a list of modifiers are parsed back to that list (model of `naunet init`); text level (modifier_factor_stays_one_operand, parser_frame, lexer_frame): whatever the factor text is, if it parses on its own as C the emitted row parses with the factor kept together as one operand. Tied to the API (also on networks edited after the modifiers were attached), TemplateLoader.render, Network.export -> `naunet render` and `naunet init` -> TOML.",
             "tomlkit and cleo option tokenisation are exercised, not modelled.",
             "7 C13"),
 })
